@@ -156,6 +156,22 @@ def stream_cases(rng, kind, n_cases, max_len):
     return cases
 
 
+def topk_churn_cases(rng, n_cases, max_len):
+    """Space-saving under eviction pressure: barely more items than counters, long enough for an
+    item to be evicted and to come back several times (where the inherited count/error matter)."""
+    cases = []
+    for k in range(n_cases):
+        kk = rng.choice((1, 2, 2, 3, 3, 4))
+        ni = kk + rng.choice((1, 1, 2))
+        U = universe(rng, ni, rng.choice(("str", "int", "tuple")))
+        n = rng.randint(min(12, max_len), max_len)
+        shape = ("uniform", "zipf", "heavy", "weighted", "uniform", "heavy_late")[k % 6]
+        L = stream(rng, ni, n, shape, maxw=2)
+        cases.append({"kind": "topk", "p": [kk, 0], "seed": 0, "universe": U,
+                      "ops": [["add", 1, x, c] for (x, c) in L], "bare_add": bool(k % 2)})
+    return cases
+
+
 def component_cases(rng, kind, n_cases, max_len):
     """The same sketches fed by SketchCollector / TopKCollector inside a real Simulation."""
     cases = []
